@@ -166,7 +166,7 @@ def stepCore (s : CS) (e : Ev) : Option CS :=
   | .closeAbort => guard s.closeCalled s
   | .connCallInRecv => guard s.recv.isSome s
   -- nobody reads from the link: that is a fault of it (it is shut, DISCONNECTED is reported, and the call goes on to connect)
-  | .abandon c => guard (s.st = .connected && s.recv.isNone && s.conn = some c && !s.connActive && s.calls > 0)
+  | .abandon c => guard (s.st = .connected && s.recv.isNone && s.conn = some c && !s.connActive && s.calls > 0 && !s.abandoning)
       { s with faults := s.faults + 1, faulted := c :: s.faulted, abandoning := true }
   | .connCancel =>
     guard (s.calls > 0 && s.connActive && s.st ≠ .closed)
